@@ -10,6 +10,8 @@ import common  # noqa: E402
 rows = {}
 for f in sorted(glob.glob(os.path.join(common.CACHE, "sweep-*.json"))):
     agg = json.load(open(f))
+    if agg.get("repo_hash") != common.tree_hash(repo_only=True):
+        continue
     for fl in agg["failures"]:
         key = (fl["prop"], fl["site"], fl["kind"])
         n = agg["fail_counts"].get("%s|%s|%s" % key, 1)
